@@ -69,9 +69,10 @@ Definition corr (t : live) (c : mcase) : bool :=
       | AExc ENode (Some _), MNodeError msg full =>
           match report_of t files cfg name src r with
           | RepNode (Some pat) suf => str_eqb ([34] ++ msg ++ [34] ++ suf) full && pat_matches pat msg
+          | RepNode None suf => str_eqb ([34] ++ msg ++ [34] ++ suf) full    (* code lookup: the place is modelled, the wording is not *)
           | _ => false
           end
-      | AExc ENode None, MNodeError _ _ => true      (* raised during code generation: no site in [aresult] *)
+      | AExc ENode None, MNodeError _ _ => true      (* "Opcode operand must not be code": no site in [aresult] *)
       | AExc ENode _, MExc _ => false
       | AExc _ _, MExc _ => true                     (* exception classes are E2E's business *)
       | _, _ => false
